@@ -142,12 +142,20 @@ func (c *Chunk) Close() {
 func (c *Chunk) gc() {
 	tracked := c.getTracked()
 	tick := c.getTick()
-	for key, td := range tracked {
+	for key := range tracked {
 		func() {
 			l := c.getSnapshotLock(key)
 			l.lock()
 			defer l.unlock()
-			if tick-td.tick >= c.timeout {
+			// the record might have been replaced by a restarted stream or removed
+			// while waiting for the lock
+			c.mu.Lock()
+			td, ok := c.tracked[key]
+			c.mu.Unlock()
+			if !ok {
+				return
+			}
+			if tick >= td.tick && tick-td.tick >= c.timeout {
 				c.removeTempDir(td.first)
 				c.reset(key)
 			}
